@@ -414,3 +414,102 @@ class NativeFaultInjection(NativeCheck):
 
 
 NATIVE = [NativeFaultInjection()]
+
+
+# ----------------------------------------------------------------------------
+# the merge closure of the wrapper: add_peptide_anno
+# ----------------------------------------------------------------------------
+@register
+class MergeClosure(Contract):
+    """add_peptide_anno(x) merges the peptides of one unit into the result of the transcript: every sequence of x gets an entry, every
+    label of x is recorded under its sequence unless that label is already there (first wins, nothing is overwritten or removed)"""
+    path, qualname, props = CVP, 'call_variant_peptides_wrapper.add_peptide_anno', ('C07', 'C05', 'C06')
+    assumptions = ('the enclosing variable peptide_anno is a dict from sequence to a dict from label to metadata (ghost: every setdefault / '
+                   'membership test / store is observed)',)
+
+    def setup(self, I):
+        e = I.e
+        st = types.SimpleNamespace(setdefaults=[], stores=[], tests=[])
+        st.n = e.int('n_sequences')
+        e.assume(st.n >= 0)
+        st.nlab = z3.Function('n_labels', z3.IntSort(), z3.IntSort())
+        zz = lambda i: i if is_z3(i) else z3.IntVal(i)
+        c = self
+
+        class Inner:
+            def __init__(s_, m):
+                s_.m = m
+
+            def sym_contains(s_, I2, key):
+                b = I2.e.bool('label_already_recorded')
+                st.tests.append((s_.m, key, b))
+                return b
+
+            def sym_setitem(s_, I2, key, val):
+                st.stores.append((s_.m, key, val))
+
+        class Outer:
+            def sym_method(s_, I2, name, a, k):
+                if name == 'setdefault' and len(a) == 2 and a[1] == {}:
+                    st.setdefaults.append(a[0])
+                    return Inner(a[0].fields['m'])
+                raise Unsupported(f'peptide_anno.{name}')
+        st.outer = Outer()
+        x = types.SimpleNamespace()
+        x.sym_method = lambda I2, name, a, k: FnView(st.n, lambda m: (SymObj('Seq7', m=zz(m)), FnView(st.nlab(zz(m)), lambda t, m=m: SymObj('Meta7', m=zz(m), t=zz(t), label=SymObj('Label7', m=zz(m), t=zz(t))), tag='metadata')), tag='x.items()') \
+            if name == 'items' else (_ for _ in ()).throw(Unsupported(name))
+        st.args = [x]
+        self._cur = st
+        return st
+
+    @property
+    def models(self):
+        c = self
+
+        def inst(reg):
+            f = lambda I: c._cur.outer
+            f._is_factory = True
+            reg.global_(CVP, 'peptide_anno', f)
+        return (inst,)
+
+    def head0(self, I, env, k):
+        self._cur.m0 = len(self._cur.setdefaults)
+
+    def step0(self, I, env, k):
+        st = self._cur
+        new = st.setdefaults[st.m0:]
+        return [('k-th-sequence-gets-its-entry-once', len(new) == 1 and z3.is_true(z3.simplify(new[0].fields['m'] == k)))]
+
+    def head1(self, I, env, k):
+        st = self._cur
+        st.m1 = (len(st.tests), len(st.stores))
+
+    def step1(self, I, env, k):
+        st = self._cur
+        tests, stores = st.tests[st.m1[0]:], st.stores[st.m1[1]:]
+        seq = env['seq']
+        ok = len(tests) == 1 and isinstance(tests[0][1], SymObj) and tests[0][1].cls == 'Label7'
+        items = [('label-looked-up-once-in-the-entry-of-its-own-sequence', ok)]
+        if not ok:
+            return items
+        m, lab, present = tests[0]
+        items.append(('it-is-the-k-th-label-of-this-sequence', z3.And(m == seq.fields['m'], lab.fields['m'] == seq.fields['m'], lab.fields['t'] == k)))
+        if stores:
+            s0 = stores[0]
+            items.append(('recorded-under-its-own-label-only-if-that-label-was-not-there',
+                          z3.And(z3.Not(present), len(stores) == 1 and s0[1] is lab and isinstance(s0[2], SymObj) and s0[2].fields.get('label') is lab, s0[0] == seq.fields['m'])))
+        else:
+            items.append(('left-out-only-if-the-label-was-already-there', present))
+        return items
+
+    @property
+    def loops(self):
+        T = lambda I, env, k: []
+        brk = lambda what: (lambda I, env, k: [(what, False)])
+        return {0: LoopSpec(inv=T, havoc=lambda I, env, k: None, on_head=self.head0, step=self.step0, on_break=brk('every-sequence-of-the-unit-is-merged'), target_after='unknown',
+                            on_exit=lambda I, env, n: [('all-sequences-of-the-unit-were-visited', n == self._cur.n)]),
+                1: LoopSpec(inv=T, havoc=lambda I, env, k: None, on_head=self.head1, step=self.step1, on_break=brk('every-label-of-a-sequence-is-merged'), target_after='unknown',
+                            on_exit=lambda I, env, n: [('all-labels-of-the-sequence-were-visited', n == self._cur.nlab(env['seq'].fields['m']))])}
+
+    def post_return(self, I, st, ret):
+        I.e.prove('C07/merge/returns-nothing', ret is None)
